@@ -14,7 +14,12 @@ Inductive case :=
     (* String.fromCharCode(args) *)
 | CCmp (a b : str) (ab ba aa : Z)
     (* a.localeCompare(b), b.localeCompare(a), a.localeCompare(a) *)
-| CChain (u : str) (ops : list (meth * list arg)) (obs : list res).
+| CChain (u : str) (ops : list (meth * list arg)) (obs : list res)
+| CEffect (steps : list (option meth * erecv * list earg)) (obs : list (res * list Z))
+    (* a history on one runtime of calls whose receiver / arguments are objects with logging,
+       possibly throwing toString / valueOf; per step: result (8 = it threw) and conversion log *)
+| CPatched (x : str) (m : meth) (r : recv) (args : list arg) (obs : res).
+    (* String.prototype.toString = function(){ return x }; then this.m(args) *)
     (* var s = u; then for each op: r = s.m(args); observe r; if r is a string, s = r *)
 
 Definition res_eqb (a b : res) : bool :=
@@ -36,7 +41,10 @@ Definition res_eqb (a b : res) : bool :=
    5 undefined this is replaced by the global object; substr does not reject null
    6 lastIndexOf: NaN position taken as 0, -Infinity as +Infinity
    7 int64 wrap-around in substr / lastIndexOf ends in a Go slice-bounds panic
-   8 "01", "+1", "-0" accepted as index property names of a string *)
+   8 "01", "+1", "-0" accepted as index property names of a string
+   9 an argument conversion required by the ES5 step order is skipped (split with limit 0,
+     lastIndexOf on the empty string)
+   10 a replaced String.prototype.toString is applied to primitive string receivers *)
 Definition has_lone (u : str) : bool := negb (zlist_eqb (enc16 (dec16 u)) u).
 Definition arg_lone (a : arg) : bool := match a with AStr u => has_lone u | _ => false end.
 Definition has_fffd (u : str) : bool := existsb (Z.eqb 0xFFFD) u.
@@ -109,6 +117,51 @@ Fixpoint chain_class (cur_m cur_s : str) (ops : list (meth * list arg)) : Z :=
       end
   end.
 
+(* ---------- effectful conversions ---------- *)
+Definition step_eqb (a b : res * list Z) : bool := res_eqb (fst a) (fst b) && zlist_eqb (snd a) (snd b).
+
+Definition model_step (st : option meth * erecv * list earg) : option (res * list Z) :=
+  let '(mo, er, ea) := st in effect_step plan_model call_model m_fromCharCode mo er ea.
+Definition spec_step (st : option meth * erecv * list earg) : option (res * list Z) :=
+  let '(mo, er, ea) := st in effect_step (fun m _ ea => plan_spec m ea) call_spec fromCharCode mo er ea.
+
+Fixpoint all_steps (f : option meth * erecv * list earg -> option (res * list Z))
+         (l : list (option meth * erecv * list earg)) : option (list (res * list Z)) :=
+  match l with
+  | [] => Some []
+  | st :: l' => match f st, all_steps f l' with Some r, Some rs => Some (r :: rs) | _, _ => None end
+  end.
+
+Definition plain_of (e : earg) : arg :=
+  match e with EPlain a => a | EObj _ sv _ _ _ => AStr sv end.
+(* class of the first deviating step: 9 when the conversion logs differ, else as for a plain call *)
+Fixpoint effect_class (l : list (option meth * erecv * list earg)) : Z :=
+  match l with
+  | [] => 0
+  | st :: l' =>
+      match model_step st, spec_step st with
+      | Some a, Some b =>
+          if step_eqb a b then effect_class l'
+          else if negb (zlist_eqb (snd a) (snd b)) then 9
+          else match st with
+               | (Some m, er, ea) =>
+                   classify m (match er with ERLit u => RLit u | ERObj _ sv _ => RObj sv end) (map plain_of ea)
+               | (None, _, _) => 2
+               end
+      | _, _ => 0
+      end
+  end.
+
+(* ---------- a replaced String.prototype.toString ---------- *)
+(* otto wraps a primitive receiver of a member call in a String object and then converts that
+   object with the (replaced) toString; charAt / charCodeAt read the wrapped value directly. *)
+Definition patch_model (m : meth) (r : recv) (x : str) : recv :=
+  if is_charm m then r else
+  match r with RLit _ => RLit x | RStrObj _ => RStrObj x | _ => r end.
+(* ES5: ToString of a primitive is the primitive; of a String object it calls toString *)
+Definition patch_spec (r : recv) (x : str) : recv :=
+  match r with RStrObj _ => RStrObj x | _ => r end.
+
 Definition triple_eqb (a b : Z * Z * Z) : bool :=
   let '(a1, a2, a3) := a in let '(b1, b2, b3) := b in (a1 =? b1) && (a2 =? b2) && (a3 =? b3).
 
@@ -129,5 +182,24 @@ Definition verdict (c : case) : Z * Z :=
       match chain call_model u ops, chain call_spec u ops with
       | Some mo, Some sp => judge (list_eqb res_eqb) obs mo sp (chain_class u u ops)
       | _, _ => declined
+      end
+  | CEffect steps obs =>
+      match all_steps model_step steps, all_steps spec_step steps with
+      | Some mo, Some sp => judge (list_eqb step_eqb) obs mo sp (effect_class steps)
+      | _, _ => declined
+      end
+  | CPatched x m r args obs =>
+      match r with
+      | RLit _ | RStrObj _ | RCallStr _ =>
+          match call_model m (patch_model m r x) args, call_spec m (patch_spec r x) args with
+          | Some mo, Some sp =>
+              judge res_eqb obs mo sp
+                    (match call_model m r args, call_spec m r args with
+                     | Some a, Some b => if res_eqb a b then 10 else classify m r args
+                     | _, _ => 10
+                     end)
+          | _, _ => declined
+          end
+      | _ => declined
       end
   end.
